@@ -321,3 +321,17 @@ def strip_casts(t: Term) -> Term:
     while prev != t:
         prev, t = t, subst(t, fn)
     return t
+
+
+def resolve_phi(val: Term, leaf) -> Term:
+    """A conditional value (single-exit dispatcher: result assigned on if/elif/else arms, one return) reduced by the tests that
+    `leaf` decides; stops at the first undecided test."""
+    while isinstance(val, tuple) and val and val[0] == "phi":
+        r = eval_bool(val[1], leaf)
+        if r is True:
+            val = val[2]
+        elif r is False:
+            val = val[3]
+        else:
+            break
+    return val
